@@ -384,6 +384,11 @@ func (p *sparser) typeText() string {
 		return "*" + p.typeText()
 	}
 	if p.accept("[") {
+		if p.peek().k == "int" {
+			n := p.next().v
+			p.expect("]")
+			return "[" + n + "]" + p.typeText()
+		}
 		p.expect("]")
 		return "[]" + p.typeText()
 	}
@@ -392,6 +397,12 @@ func (p *sparser) typeText() string {
 		p.fail("expected type, got %q", t.v)
 	}
 	name := t.v
+	if name == "map" {
+		p.expect("[")
+		k := p.typeText()
+		p.expect("]")
+		return "map[" + k + "]" + p.typeText()
+	}
 	if p.isOp(".") && p.ts[p.p+1].k == "id" {
 		p.p++
 		name += "." + p.next().v
